@@ -213,6 +213,11 @@ def _shard(shard, n, tier, seed, budget_s):
                 kind = op.get("kind", "init")
                 rep["op_kinds"][kind] = rep["op_kinds"].get(kind, 0) + 1
                 trace.append({"op": {x: (y if x != "src" else y[-200:]) for x, y in op.items()}, "outcome": r.get("outcome"), "error": (r.get("error") or "")[:80], "residue": r.get("residue")})
+                if r.get("is_timeout") and kind != "fail:timeout":
+                    # the 40 ms limit fired in an operation that does a few microseconds of work: the worker was descheduled
+                    # (32 processes on 16 cores). The history is discarded and counted; many discards make the run inconclusive.
+                    rep["timing_discards"] = rep.get("timing_discards", 0) + 1
+                    bad = True; break
                 if r.get("outcome") == "panic":
                     rep["violations"].append({"key": "panic:" + r["panic"]["signature"], "summary": "panic in history op %d (%s): %s" % (k, kind, r["panic"]["message"][:80]), "case": {"history": ops[:k + 1], "panic": r["panic"]}})
                     bad = True; break
@@ -236,16 +241,25 @@ def _shard(shard, n, tier, seed, budget_s):
                                               "case": {"history": ops[:k + 1], "response": {x: r.get(x) for x in ("outcome", "error", "result", "stdout")}}})
                     bad = True; break
             if not bad:
+                hiccup = False
                 for op in ref:
                     req = dict(op); req["inst"] = "ref"
                     if req["op"] == "inst_run":
                         req["path"] = script_path
-                    w.call(req, timeout=30)
+                    rr = w.call(req, timeout=30)
                     rep["evaluations"] += 1
+                    if rr.get("is_timeout"):
+                        hiccup = True
+                if hiccup:
+                    rep["timing_discards"] = rep.get("timing_discards", 0) + 1
+                    continue
                 e1 = w.call({"op": "inst_exports", "inst": "used"}).get("exports")
                 e2 = w.call({"op": "inst_exports", "inst": "ref"}).get("exports")
                 p1 = w.call({"op": "inst_run", "inst": "used", "src": PROBE}, timeout=30)
                 p2 = w.call({"op": "inst_run", "inst": "ref", "src": PROBE}, timeout=30)
+                if p1.get("is_timeout") or p2.get("is_timeout"):
+                    rep["timing_discards"] = rep.get("timing_discards", 0) + 1
+                    continue
                 rep["probe_comparisons"] += 1
                 rep["evaluations"] += 2
                 v1 = (p1.get("outcome"), p1.get("stdout"), p1.get("result"), p1.get("error"))
@@ -286,6 +300,11 @@ def run(tier, seed):
     for s in shards:
         for k, v in (s.get("op_kinds") or {}).items(): kinds[k] = kinds.get(k, 0) + v
     cov["operations_by_kind"] = kinds
+    discards = sum(s.get("timing_discards", 0) for s in shards if isinstance(s, dict))
+    histories = sum(s.get("histories", 0) for s in shards if isinstance(s, dict))
+    cov["histories_discarded_for_timing"] = discards
+    if histories and discards > max(5, histories * 0.005):
+        chk.inconclusive.append("%d of %d histories were discarded because the 40 ms limit fired in an operation that should finish in microseconds: machine too loaded, or the limit fires spuriously" % (discards, histories))
     cov.pop("passenger_observations", None); cov.pop("passenger_src", None)
     cov["rule"] = ("histories of 1-%d operations on one Koto instance (execution limit 40 ms): scripts with explicit effects (export e_i, shared.push i) that succeed or fail "
                    "after the effects through one of %d planted faults (nested calls, native callbacks, generators, operator / comparison / display / call / index / next "
